@@ -84,3 +84,19 @@ Definition x_C20_ok (v : val) : val :=
   | Some os => vbool (ok_rounds (c20_cfg c) (c20_scripts c) os)
   | None => VI 0
   end.
+
+(* concurrent first requests: case = (n tracks delays);
+   observation = (answers live registered member conns counter goroutines (final world)) *)
+Definition enc_cobs (o : cobs) : val :=
+  VL [vbool (co_answers o); VI (co_live o); VI (co_registered o); vbool (co_member o);
+      VI (w_conns (co_world o)); VI (w_cnt (co_world o)); VI (w_readers (co_world o));
+      VL (enc_world (co_final o))].
+Definition dec_cobs (v : val) : cobs :=
+  {| co_answers := as_bool (nthv 0 v); co_live := as_int (nthv 1 v); co_registered := as_int (nthv 2 v);
+     co_member := as_bool (nthv 3 v);
+     co_world := {| w_reg := 0 <? as_int (nthv 2 v); w_cnt := as_int (nthv 5 v);
+                    w_conns := as_int (nthv 4 v); w_readers := as_int (nthv 6 v) |};
+     co_final := dec_world (nthv 7 v) |}.
+Definition x_C20conc_run (c : val) : val := enc_cobs (conc_model (as_nat (nthv 0 c))).
+Definition x_C20conc_ok (v : val) : val :=
+  if (length (as_list (nthv 1 v)) =? 8)%nat then vbool (ok_conc (dec_cobs (nthv 1 v))) else VI 0.
